@@ -33,7 +33,8 @@ class FnTranslator:
     """one function; `params` maps python parameter / `self.attr` names to Lean variable names; `glob` is
     the namespace constants are looked up in; `owner` the class for `self.CONST`"""
 
-    def __init__(self, fn, params, self_attrs=None, owner=None):
+    def __init__(self, fn, params, self_attrs=None, owner=None, numty='Nat'):
+        self.numty = numty          # 'Nat': non-negative integers only, no subtraction; 'Int': exact integers / decimals
         self.fn = fn
         self.src = textwrap.dedent(inspect.getsource(fn))
         self.node = ast.parse(self.src).body[0]
@@ -54,7 +55,9 @@ class FnTranslator:
             return 'true' if v else 'false', 'bool'
         if isinstance(v, int):
             if v < 0:
-                raise Refuse('negative constant %s' % what)
+                if self.numty != 'Int':
+                    raise Refuse('negative constant %s' % what)
+                return '(%d : Int)' % int(v), 'nat'
             return str(int(v)), 'nat'
         if isinstance(v, (tuple, list, frozenset, set)) and all(isinstance(x, int) and not isinstance(x, bool)
                                                                  and x >= 0 for x in v):
@@ -92,12 +95,23 @@ class FnTranslator:
             return '[%s]' % ', '.join(t for t, _ in parts), 'list'
         if isinstance(n, ast.BinOp):
             op = BINOPS.get(type(n.op))
-            if op is None:
+            if op is None and isinstance(n.op, ast.Sub) and self.numty == 'Int':
+                op = '-'
+            if op is None or (self.numty == 'Int' and op not in ('+', '*', '-')):
                 raise Refuse('operator %s' % type(n.op).__name__)
             (a, ka), (b, kb) = self.expr(n.left), self.expr(n.right)
             if ka != 'nat' or kb != 'nat':
                 raise Refuse('arithmetic on non-integers')
             return '((%s) %s (%s))' % (a, op, b), 'nat'
+        if isinstance(n, ast.Compare) and len(n.ops) > 1:
+            # a chained comparison  a <= b <= c  is the conjunction of its links (every operand is a name or a constant
+            # here, so evaluating the middle one once or twice makes no difference)
+            operands = [n.left] + list(n.comparators)
+            if not all(isinstance(o, (ast.Name, ast.Constant)) for o in operands):
+                raise Refuse('chained comparison of compound operands')
+            links = [self.expr(ast.Compare(left=a, ops=[op], comparators=[b]))
+                     for a, op, b in zip(operands, n.ops, operands[1:])]
+            return '(%s)' % ' && '.join(t for t, _ in links), 'bool'
         if isinstance(n, ast.Compare) and len(n.ops) == 1:
             (a, ka) = self.expr(n.left)
             (b, kb) = self.expr(n.comparators[0])
@@ -284,14 +298,14 @@ class FnTranslator:
             raise Refuse('a %s-valued function that raises' % self.kind)
         else:
             ty = {'bool': 'Bool', 'nat': 'Nat'}[self.kind]
-        head = 'def %s %s : %s :=' % (lean_name, ' '.join('(%s : Nat)' % p for p in lean_params), ty)
+        head = 'def %s %s : %s :=' % (lean_name, ' '.join('(%s : %s)' % (p, self.numty) for p in lean_params), ty)
         return '\n'.join([head] + body), ty
 
 
 STUBS = {'Option CommState': 'none', 'Bool': 'false', 'Nat': '0'}
 
 
-def translate_all(U, M, untrans):
+def translate_all(U, M, untrans, F=None):
     """-> source text of Generated/Funcs.lean"""
     out = ['import PyaisVerif.Model.CommState',
            '/-! GENERATED by harness/translate_fn.py from the pyais source tree — do not edit.',
@@ -323,8 +337,12 @@ def translate_all(U, M, untrans):
         ('commStateRawFn', ['radio'], 'Nat',
          lambda: FnTranslator(prop_fn('communication_state_raw'), {}, {'radio': 'radio'}, mix)),
     ]
+    grid_params = ['lat', 'lon', 'lat_min', 'lon_min', 'lat_max', 'lon_max']
+    jobs.append(('isInGridFn', grid_params, 'Bool',
+                 lambda: FnTranslator(getattr(F, 'is_in_grid'), {p: p for p in grid_params}, numty='Int')))
     done = []
     for lean_name, lean_params, want, make in jobs:
+        tag, what, numty = ('filter', 'filter function', 'Int') if lean_name == 'isInGridFn' else ('cs', 'comm-state function', 'Nat')
         try:
             tr = make()
             text, ty = tr.translate(lean_name, lean_params)
@@ -333,8 +351,8 @@ def translate_all(U, M, untrans):
             out.append(text)
             done.append(lean_name)
         except Exception as e:  # noqa
-            untrans('comm-state function %s: %s' % (lean_name, e), 'cs')
-            out.append('def %s %s : %s := %s' % (lean_name, ' '.join('(_%s : Nat)' % p for p in lean_params), want,
+            untrans('%s %s: %s' % (what, lean_name, e), tag)
+            out.append('def %s %s : %s := %s' % (lean_name, ' '.join('(_%s : %s)' % (p, numty) for p in lean_params), want,
                                                   STUBS[want]))
         out.append('')
     out.append('end Generated')
